@@ -159,9 +159,13 @@ class Program:
         return c
 
     def _class_consts(self, c):
+        # a class-level name that some method re-binds (self.x = ..., Cls.x = ...) is per-object / mutable state, not a constant
+        rebound = {n.attr for n in ast.walk(c.node) if isinstance(n, ast.Attribute) and isinstance(n.ctx, (ast.Store, ast.Del))}
         for st in c.node.body:
             if isinstance(st, ast.Assign) and len(st.targets) == 1 and isinstance(st.targets[0], ast.Name):
                 n = st.targets[0].id
+                if n in rebound:
+                    continue
                 c.const_nodes[n] = st.value
                 v = self.const_eval(st.value, c.mod, c)
                 if v is NOCONST:
